@@ -137,6 +137,21 @@ Proof.
   split; [reflexivity|]. split; [reflexivity|]. split; [reflexivity|]. split; [exact Hpid|lia].
 Qed.
 
+Lemma acc_from_ok : forall x, 0 <= x < 256 -> acc_ok (acc_from_prim x).
+Proof.
+  intros x H. unfold acc_from_prim.
+  destruct ((x <=? 22) || (50 <=? x) && (x <=? 127) || (x =? 255)) eqn:E1; [exact I|].
+  destruct (x <=? 49) eqn:E2; [cbn [acc_ok]; lia|].
+  destruct (x =? 254) eqn:E3; [exact I|]. cbn [acc_ok]. unfold is_byte. lia.
+Qed.
+
+Lemma tsrc_from_ok : forall x, 0 <= x < 256 -> tsrc_ok (tsrc_from_prim x).
+Proof.
+  intros x H. unfold tsrc_from_prim.
+  repeat (match goal with |- tsrc_ok (if ?c then _ else _) => destruct c; [exact I|] end).
+  match goal with |- tsrc_ok (if ?c then _ else _) => destruct c end; cbn [tsrc_ok]; unfold is_byte; lia.
+Qed.
+
 (* Announce *)
 Lemma body_back_announce : forall d rest b old,
   (forall i, byte i old = 0) ->
@@ -163,8 +178,8 @@ Proof.
   split; [reflexivity|]. split; [reflexivity|]. split; [reflexivity|].
   unfold cq_ok, is_byte, tsrc_ok, acc_ok. cbn [cq_class cq_acc cq_var length].
   repeat split; try lia; try bytes_solve.
-  - unfold acc_from_prim. repeat (match goal with |- context [if ?c then _ else _] => destruct c eqn:? end); unfold is_byte; try exact I; lia.
-  - unfold tsrc_from_prim. repeat (match goal with |- context [if ?c then _ else _] => destruct c eqn:? end); unfold is_byte; try exact I; lia.
+  - apply acc_from_ok. lia.
+  - apply tsrc_from_ok. lia.
 Qed.
 
 (* all ten *)
